@@ -1,16 +1,395 @@
-//! Statement-level observations for ignore directives and ranges (C08/C09/C10 masks).
+//! Statement-level facts for ignore directives and ranges (C08 / C09 / C12, masks for C10).
+//! The harness only extracts facts (spans, directive lines, byte equality of slices between
+//! input and the various outputs, matched by structural path); whether a statement was
+//! supposed to be verbatim is decided by TLC (spec/Block.tla).
+use crate::lex;
+use crate::libcase::{fm_parse, run_format, Outcome};
+use full_moon::ast::*;
+use full_moon::node::Node as FmNode;
+use full_moon::tokenizer::{TokenReference, TokenType};
+use full_moon::visitors::Visitor;
 use serde_json::{json, Value};
+use std::collections::HashMap;
 use stylua_lib::{Config, Range};
+
+#[derive(Clone, Debug)]
+pub struct SRec {
+    /// structural path: stmt index, then (block ordinal, stmt index)*; fields use block ordinal 1000+table ordinal
+    pub path: Vec<usize>,
+    pub kind: String,
+    pub start: usize,
+    /// exclusive end of the statement's last token
+    pub end: usize,
+    /// exclusive end including a terminating semicolon (== end when there is none)
+    pub end_semi: usize,
+    pub semi: bool,
+    /// directive lines found in the leading comments, in order: "ignore" | "start" | "end"
+    pub dirs: Vec<String>,
+    pub marker: String,
+}
+
+struct Frame {
+    path: Vec<usize>,
+    next_stmt: usize,
+    semis: Vec<Option<usize>>, // end of semicolon token per statement (incl. last stmt)
+}
+
+struct Walker {
+    recs: Vec<SRec>,
+    blocks: Vec<Frame>,
+    /// stack of (path of current stmt, next nested block ordinal, next table ordinal)
+    stmts: Vec<(Vec<usize>, usize, usize)>,
+}
+
+fn directive_lines<'a>(trivia: impl Iterator<Item = &'a full_moon::tokenizer::Token>) -> Vec<String> {
+    let mut out = Vec::new();
+    for t in trivia {
+        let c = match t.token_type() {
+            TokenType::SingleLineComment { comment } => comment.as_str(),
+            TokenType::MultiLineComment { comment, .. } => comment.as_str(),
+            _ => continue,
+        };
+        for line in c.lines().map(|l| l.trim()) {
+            match line {
+                "stylua: ignore" => out.push("ignore".to_string()),
+                "stylua: ignore start" => out.push("start".to_string()),
+                "stylua: ignore end" => out.push("end".to_string()),
+                _ => {}
+            }
+        }
+    }
+    out
+}
+
+fn span<T: FmNode>(n: &T) -> (usize, usize) {
+    match n.range() {
+        Some((a, b)) => (a.bytes(), b.bytes()),
+        None => (0, 0),
+    }
+}
+
+fn stmt_kind(s: &Stmt) -> &'static str {
+    match s {
+        Stmt::Assignment(_) => "assign",
+        Stmt::Do(_) => "do",
+        Stmt::FunctionCall(_) => "call",
+        Stmt::FunctionDeclaration(_) => "function",
+        Stmt::GenericFor(_) => "genfor",
+        Stmt::If(_) => "if",
+        Stmt::LocalAssignment(_) => "local",
+        Stmt::LocalFunction(_) => "localfunction",
+        Stmt::NumericFor(_) => "numfor",
+        Stmt::Repeat(_) => "repeat",
+        Stmt::While(_) => "while",
+        Stmt::CompoundAssignment(_) => "compound",
+        Stmt::Goto(_) => "goto",
+        Stmt::Label(_) => "label",
+        _ => "other",
+    }
+}
+
+impl Walker {
+    fn enter_stmt(&mut self, kind: &str, start: usize, end: usize, dirs: Vec<String>) {
+        let (path, semi_end) = {
+            let f = self.blocks.last_mut().expect("stmt outside block");
+            let idx = f.next_stmt;
+            f.next_stmt += 1;
+            let mut p = f.path.clone();
+            p.push(idx);
+            (p, f.semis.get(idx).cloned().flatten())
+        };
+        self.recs.push(SRec {
+            path: path.clone(),
+            kind: kind.to_string(),
+            start,
+            end,
+            end_semi: semi_end.unwrap_or(end),
+            semi: semi_end.is_some(),
+            dirs,
+            marker: String::new(),
+        });
+        self.stmts.push((path, 0, 0));
+    }
+}
+
+impl Visitor for Walker {
+    fn visit_block(&mut self, b: &Block) {
+        let path = match self.stmts.last_mut() {
+            Some((p, nb, _)) => {
+                let mut q = p.clone();
+                q.push(*nb);
+                *nb += 1;
+                q
+            }
+            None => vec![],
+        };
+        let mut semis: Vec<Option<usize>> = b.stmts_with_semicolon().map(|(_, s)| s.as_ref().map(|t| t.token().end_position().bytes())).collect();
+        if let Some((_, s)) = b.last_stmt_with_semicolon() {
+            semis.push(s.as_ref().map(|t| t.token().end_position().bytes()));
+        }
+        self.blocks.push(Frame { path, next_stmt: 0, semis });
+    }
+    fn visit_block_end(&mut self, _b: &Block) {
+        self.blocks.pop();
+    }
+    fn visit_stmt(&mut self, s: &Stmt) {
+        let (a, z) = span(s);
+        let dirs = directive_lines(s.surrounding_trivia().0.into_iter());
+        self.enter_stmt(stmt_kind(s), a, z, dirs);
+    }
+    fn visit_stmt_end(&mut self, _s: &Stmt) {
+        self.stmts.pop();
+    }
+    fn visit_last_stmt(&mut self, s: &LastStmt) {
+        let (a, z) = span(s);
+        let dirs = directive_lines(s.surrounding_trivia().0.into_iter());
+        let kind = match s {
+            LastStmt::Return(_) => "return",
+            LastStmt::Break(_) => "break",
+            _ => "continue",
+        };
+        self.enter_stmt(kind, a, z, dirs);
+    }
+    fn visit_last_stmt_end(&mut self, _s: &LastStmt) {
+        self.stmts.pop();
+    }
+    fn visit_table_constructor(&mut self, t: &TableConstructor) {
+        // a table is a "block" of fields
+        let path = match self.stmts.last_mut() {
+            Some((p, _, nt)) => {
+                let mut q = p.clone();
+                q.push(1000 + *nt);
+                *nt += 1;
+                q
+            }
+            None => vec![1000],
+        };
+        // separators are not part of a field (the property says so)
+        let n = t.fields().len();
+        self.blocks.push(Frame { path, next_stmt: 0, semis: vec![None; n] });
+    }
+    fn visit_table_constructor_end(&mut self, _t: &TableConstructor) {
+        self.blocks.pop();
+    }
+    fn visit_field(&mut self, f: &Field) {
+        let (a, z) = span(f);
+        let dirs = directive_lines(f.surrounding_trivia().0.into_iter());
+        self.enter_stmt("field", a, z, dirs);
+    }
+    fn visit_field_end(&mut self, _f: &Field) {
+        self.stmts.pop();
+    }
+}
+
+pub fn collect(ast: &Ast) -> Vec<SRec> {
+    let mut w = Walker { recs: vec![], blocks: vec![], stmts: vec![] };
+    w.visit_ast(ast);
+    // EOF pseudo-statement carries directives found before the end of file (not judged)
+    w.recs
+}
+
+fn eof_leading(ast: &Ast) -> &TokenReference {
+    ast.eof()
+}
+
+/// README semantics of the ignore directives, used ONLY to compute exempt spans for the
+/// whitespace check on corpus-sized outputs (the C08 verdict itself is TLC's).
+pub fn ignored_flags(recs: &[SRec]) -> Vec<bool> {
+    let mut out = vec![false; recs.len()];
+    // state per parent path
+    let mut disabled: HashMap<Vec<usize>, bool> = HashMap::new();
+    for (i, r) in recs.iter().enumerate() {
+        let parent: Vec<usize> = r.path[..r.path.len() - 1].to_vec();
+        let anc = recs.iter().enumerate().any(|(j, o)| j != i && out[j] && r.path.len() > o.path.len() && r.path[..o.path.len()] == o.path[..]);
+        let d = disabled.entry(parent).or_insert(false);
+        for x in &r.dirs {
+            if x == "start" {
+                *d = true;
+            } else if x == "end" {
+                *d = false;
+            }
+        }
+        out[i] = anc || *d || r.dirs.iter().any(|x| x == "ignore");
+    }
+    out
+}
+
+pub fn exempt_spans_out(out: &str, cfg: &Config, _range: Option<Range>) -> Vec<(usize, usize)> {
+    if !out.contains("stylua: ignore") {
+        return vec![];
+    }
+    match fm_parse(out, cfg) {
+        Ok(ast) => {
+            let recs = collect(&ast);
+            let flags = ignored_flags(&recs);
+            recs.iter().zip(flags).filter(|(_, f)| *f).map(|(r, _)| (r.start, r.end_semi)).collect()
+        }
+        Err(_) => vec![],
+    }
+}
 
 pub struct StmtObs {
     pub json: Value,
     pub exempt_out: Vec<(usize, usize)>,
 }
 
-pub fn observe(_src: &str, _out: &str, _cfg: &Config, _range: Option<Range>, _case: &Value) -> StmtObs {
-    StmtObs { json: json!({}), exempt_out: vec![] }
+fn index_by_path(recs: &[SRec]) -> HashMap<Vec<usize>, &SRec> {
+    recs.iter().map(|r| (r.path.clone(), r)).collect()
 }
 
-pub fn exempt_spans_out(_out: &str, _cfg: &Config, _range: Option<Range>) -> Vec<(usize, usize)> {
-    vec![]
+fn slice<'a>(s: &'a str, r: &SRec, with_semi: bool) -> &'a str {
+    let e = if with_semi { r.end_semi } else { r.end };
+    s.get(r.start..e).unwrap_or("")
+}
+
+/// end of the last code token strictly before byte `pos`
+fn prev_code_end(src: &str, pos: usize) -> usize {
+    let mut e = 0;
+    for t in lex::lex(src) {
+        if t.is_trivia() {
+            continue;
+        }
+        if t.end <= pos {
+            e = t.end;
+        } else {
+            break;
+        }
+    }
+    e
+}
+
+fn next_code_start(src: &str, pos: usize) -> usize {
+    for t in lex::lex(src) {
+        if t.is_trivia() {
+            continue;
+        }
+        if t.start >= pos {
+            return t.start;
+        }
+    }
+    src.len()
+}
+
+/// Resolve a symbolic range marker ("before:<i>", "after:<i>", "last:<i>", "inlast:<i>", "infirst:<i>",
+/// "0", "len", "len+1", "max") against the top-level / nested statement list (preorder index).
+pub fn resolve_marker(m: &str, recs: &[SRec], len: usize) -> Option<usize> {
+    let stmts: Vec<&SRec> = recs.iter().filter(|r| r.kind != "field").collect();
+    let pick = |i: &str| -> Option<&SRec> { i.parse::<usize>().ok().and_then(|k| stmts.get(k).cloned()) };
+    if let Some(i) = m.strip_prefix("before:") {
+        return pick(i).map(|r| r.start);
+    }
+    if let Some(i) = m.strip_prefix("infirst:") {
+        return pick(i).map(|r| r.start + 1);
+    }
+    if let Some(i) = m.strip_prefix("after:") {
+        return pick(i).map(|r| r.end_semi);
+    }
+    if let Some(i) = m.strip_prefix("last:") {
+        return pick(i).map(|r| r.end_semi.saturating_sub(1));
+    }
+    if let Some(i) = m.strip_prefix("inlast:") {
+        return pick(i).map(|r| r.end_semi.saturating_sub(2));
+    }
+    match m {
+        "0" => Some(0),
+        "len" => Some(len),
+        "len+1" => Some(len + 1),
+        "max" => Some(usize::MAX),
+        _ => None,
+    }
+}
+
+pub fn observe(src: &str, out: &str, cfg: &Config, range: Option<Range>, case: &Value) -> StmtObs {
+    let mut j = json!({});
+    let in_ast = match fm_parse(src, cfg) {
+        Ok(a) => a,
+        Err(_) => return StmtObs { json: json!({"error": "input does not parse"}), exempt_out: vec![] },
+    };
+    let in_recs = collect(&in_ast);
+    let _ = eof_leading(&in_ast);
+    let out_ast = fm_parse(out, cfg);
+    let out_recs = out_ast.as_ref().map(collect).unwrap_or_default();
+    let out_idx = index_by_path(&out_recs);
+    // comparison outputs
+    let sort_on = cfg.sort_requires.enabled;
+    let mut whole: Option<(String, Vec<SRec>)> = None;
+    if range.is_some() {
+        if let (Outcome::Ok(w), _) = run_format(src, *cfg, None, false) {
+            if let Ok(a) = fm_parse(&w, cfg) {
+                let r = collect(&a);
+                whole = Some((w, r));
+            }
+        }
+    }
+    let mut neutral: Option<(String, Vec<SRec>)> = None;
+    if src.contains("stylua: ignore") {
+        // same length, so spans of the input stay comparable
+        let nsrc = src.replace("stylua: ignore", "stylua: ignorf");
+        if let (Outcome::Ok(w), _) = run_format(&nsrc, *cfg, range, false) {
+            if let Ok(a) = fm_parse(&w, cfg) {
+                let r = collect(&a);
+                neutral = Some((w.replace("stylua: ignorf", "stylua: ignore"), r));
+            }
+        }
+    }
+    let whole_idx = whole.as_ref().map(|(_, r)| index_by_path(r));
+    let neutral_idx = neutral.as_ref().map(|(_, r)| index_by_path(r));
+    let mut recs_json = Vec::new();
+    for r in &in_recs {
+        let o = out_idx.get(&r.path);
+        let in_s = slice(src, r, true);
+        let mut e = json!({
+            "path": r.path, "kind": r.kind, "start": r.start, "end": r.end, "end_semi": r.end_semi, "semi": r.semi,
+            "dirs": r.dirs, "found": o.is_some(),
+        });
+        if let Some(o) = o {
+            let out_s = slice(out, o, true);
+            e["same_text"] = json!(in_s == out_s);
+            e["same_kind"] = json!(o.kind == r.kind);
+            e["out_semi"] = json!(o.semi);
+            // same text ignoring a lost / added semicolon (classifies the failure, not a pass)
+            e["same_text_nosemi"] = json!(slice(src, r, false) == slice(out, o, false));
+            if let (Some(wi), Some((w, _))) = (&whole_idx, &whole) {
+                if let Some(wr) = wi.get(&r.path) {
+                    e["same_as_whole"] = json!(slice(w, wr, false) == slice(out, o, false));
+                }
+            }
+            if let (Some(ni), Some((n, _))) = (&neutral_idx, &neutral) {
+                if let Some(nr) = ni.get(&r.path) {
+                    e["same_as_neutral"] = json!(slice(n, nr, false) == slice(out, o, false));
+                }
+            }
+        }
+        recs_json.push(e);
+    }
+    j["recs"] = json!(recs_json);
+    j["n_in"] = json!(in_recs.len());
+    j["n_out"] = json!(out_recs.len());
+    j["out_parses"] = json!(out_ast.is_ok());
+    j["sort_on"] = json!(sort_on);
+    if let Some(rg) = range {
+        j["range"] = json!({"start": rg.start.map(|x| x as u64).unwrap_or(0), "has_start": rg.start.is_some(),
+            "end": rg.end.map(|x| if x > (1usize << 30) { 1u64 << 30 } else { x as u64 }).unwrap_or(0), "has_end": rg.end.is_some()});
+        // prefix / suffix facts around the statements the harness can match; TLC picks the ones it needs:
+        // for every statement: is the text before it (up to the previous code token) and after it unchanged?
+        let mut ps = Vec::new();
+        for r in &in_recs {
+            if r.kind == "field" {
+                continue;
+            }
+            if let Some(o) = out_idx.get(&r.path) {
+                let pi = prev_code_end(src, r.start);
+                let po = prev_code_end(out, o.start);
+                let si = next_code_start(src, r.end_semi);
+                let so = next_code_start(out, o.end_semi);
+                ps.push(json!({"path": r.path, "prefix_same": src[..pi] == out[..po], "suffix_same": src[si..] == out[so..]}));
+            }
+        }
+        j["affix"] = json!(ps);
+    }
+    j["case_markers"] = case.get("markers").cloned().unwrap_or(Value::Null);
+    // exempt spans in the output
+    let flags = ignored_flags(&out_recs);
+    let exempt: Vec<(usize, usize)> = out_recs.iter().zip(flags).filter(|(_, f)| *f).map(|(r, _)| (r.start, r.end_semi)).collect();
+    StmtObs { json: j, exempt_out: exempt }
 }
